@@ -312,10 +312,16 @@ def r2_single_writer(rep, src):
         derived = {'local'} if 'local' in fn.params() else set()
         if not derived:
             continue
-        for st in ast.walk(fn.node):
-            if isinstance(st, ast.Assign) and isinstance(st.targets[0], ast.Name):
-                if any(isinstance(x, ast.Name) and x.id in derived for x in ast.walk(st.value)):
-                    derived.add(st.targets[0].id)
+        for _round in (1, 2):
+            for st in ast.walk(fn.node):
+                if isinstance(st, ast.Assign) and isinstance(st.targets[0], ast.Name):
+                    if any(isinstance(x, ast.Name) and x.id in derived for x in ast.walk(st.value)):
+                        derived.add(st.targets[0].id)
+                if isinstance(st, ast.With):
+                    # with helper(local + '.new') as name: what the context manager hands out is derived from what it was given
+                    for it_ in st.items:
+                        if isinstance(it_.optional_vars, ast.Name) and any(isinstance(x, ast.Name) and x.id in derived for x in ast.walk(it_.context_expr)):
+                            derived.add(it_.optional_vars.id)
         for c in calls_in(fn.node):
             nm = norm(c.func)
             args = [a for a in c.args] + [k.value for k in c.keywords]
@@ -438,6 +444,135 @@ def r3_replace_protocol(rep, src):
         rep.fail('C19.R3', f.site, 'write errors propagate', 'an except clause swallows write/rename errors', where=f.where)
     else:
         rep.ok('C19.R3', f.site, 'write errors propagate', 'no swallowing handler', nontrivial=False)
+
+
+def r10_replace_by_interpretation(rep, src):
+    """replace_file interpreted (sa.heap) on a model file system -- open / write / writelines / flush / close (a text file is buffered:
+    what is written reaches the file when the buffer is flushed or the file is closed, and THAT is where a full disk is reported),
+    os.rename / os.replace, os.unlink / os.remove, os.path.exists, os.fsync (which does not flush Python's buffer) -- with the local
+    file present or absent, with and without a stale temporary, and with a fault injected at the first / the last write, at the flush
+    on close, and at the rename.  Without a fault the local file holds exactly the new lines; with one, the error leaves the function,
+    the local file is as it was, and in both cases no other file remains."""
+    from .. import heap as H
+    mod = src.mod(MODN)
+    f = src.func(MODN + ':replace_file')
+    rep.saw_func(f)
+    LINES = ['first\n', 'second\n', 'third']
+    NEW = ''.join(LINES)
+    n, bad = 0, None
+    for before in ({'/d/local': 'OLD\n'}, {}, {'/d/local': 'OLD\n', '/d/local.new': 'stale'}):
+        for fault in (None, 'write 1', 'write 3', 'flush', 'rename'):
+            # (names and files: a rename moves the name, an open file keeps writing to the file it was opened on)
+            data = {k_ + '#0': v_ for k_, v_ in before.items()}
+            names = {k_: k_ + '#0' for k_ in before}
+            state = {'writes': 0, 'files': 0}
+
+            def view():
+                return {k_: data[v_] for k_, v_ in names.items()}
+
+            def create(path):
+                state['files'] += 1
+                names[path] = '%s#%d' % (path, state['files'])
+                data[names[path]] = ''
+
+            def h_open(it, a, k):
+                path = a[0]
+                mode = a[1] if len(a) > 1 else k.get('mode', 'r')
+                if not isinstance(path, str) or not isinstance(mode, str):
+                    raise AnalysisError('replace_file opens %r with mode %r' % (path, mode))
+                if 'r' in mode and '+' not in mode:
+                    if path not in names:
+                        raise H.Raised('FileNotFoundError', it.h.version, 0)
+                elif 'w' in mode:
+                    if path in names:
+                        data[names[path]] = ''
+                    else:
+                        create(path)
+                elif 'x' in mode:
+                    if path in names:
+                        raise H.Raised('FileExistsError', it.h.version, 0)
+                    create(path)
+                elif 'a' in mode and path not in names:
+                    create(path)
+                return it.h.alloc('File', {'file': names[path], 'mode': mode, 'buf': '', 'closed': False})
+
+            def flush(it, o):
+                if o['buf']:
+                    if fault == 'flush':
+                        o['buf'] = ''
+                        raise H.Raised('OSError', it.h.version, 0)          # no space left on device
+                    data[o['file']] += o['buf']
+                    o['buf'] = ''
+
+            def h_write(it, a, k):
+                o = it.h.objs[a[0].name]
+                if o['closed']:
+                    raise H.Raised('ValueError', it.h.version, 0)
+                text = a[1].concrete() if hasattr(a[1], 'concrete') else a[1]
+                if not isinstance(text, str):
+                    raise H.Raised('TypeError', it.h.version, 0)
+                state['writes'] += 1
+                if fault == 'write %d' % state['writes']:
+                    raise H.Raised('OSError', it.h.version, 0)
+                o['buf'] += text
+                return len(text)
+
+            def h_writelines(it, a, k):
+                for x_ in it.walk(a[1]):
+                    h_write(it, [a[0], x_], {})
+
+            def h_close(it, a, k):
+                o = it.h.objs[a[0].name]
+                if not o['closed']:
+                    o['closed'] = True          # (a file whose flush fails on close is closed nevertheless)
+                    flush(it, o)
+
+            def h_rename(it, a, k):
+                if fault == 'rename':
+                    raise H.Raised('OSError', it.h.version, 0)
+                if a[0] not in names:
+                    raise H.Raised('FileNotFoundError', it.h.version, 0)
+                names[a[1]] = names.pop(a[0])
+
+            def h_unlink(it, a, k):
+                if a[0] not in names:
+                    raise H.Raised('FileNotFoundError', it.h.version, 0)
+                del names[a[0]]
+            heap = H.Heap(mod, hooks={'open': h_open, 'io.open': h_open, '.write': h_write, '.writelines': h_writelines, '.close': h_close,
+                                      '.flush': lambda it, a, k: flush(it, it.h.objs[a[0].name]), '.fileno': lambda it, a, k: 3,
+                                      'os.fsync': lambda it, a, k: None, 'os.rename': h_rename, 'os.replace': h_rename, 'os.unlink': h_unlink, 'os.remove': h_unlink,
+                                      'os.path.exists': lambda it, a, k: a[0] in names, 'os.path.isfile': lambda it, a, k: a[0] in names,
+                                      'os.path.lexists': lambda it, a, k: a[0] in names})
+            it = H.Interp(heap)
+            n += 1
+            label = 'the local file %s%s, %s' % ('present' if '/d/local' in before else 'absent', ' (and a stale temporary)' if len(before) == 2 else '',
+                                                'no fault' if fault is None else 'a fault at %s' % {'write 1': 'the first write', 'write 3': 'the last write', 'flush': 'the flush when the new file is closed (disk full)',
+                                                                                                    'rename': 'the rename'}[fault])
+            try:
+                it.call(H.Closure(f.node, {}, None, None), [heap.new_list(list(LINES)), '/d/local'])
+                exc = None
+            except H.Raised as x:
+                exc = x.exc
+            fs = view()
+            if fault is None:
+                want = {'/d/local': NEW}
+                if exc is not None:
+                    bad = bad or '%s: raises %s' % (label, exc)
+                elif fs != want:
+                    bad = bad or '%s: afterwards the files are %r; the local file must hold the new lines %r and nothing else may remain' % (label, fs, NEW)
+            else:
+                want = {k_: v_ for k_, v_ in before.items() if k_ == '/d/local'}
+                if exc is None:
+                    bad = bad or '%s: the function returns as if the content had been written (files afterwards: %r)' % (label, fs)
+                elif fs != want:
+                    bad = bad or ('%s: the error (%s) leaves the files %r; the local file must be as it was (%r) with no temporary remaining' % (
+                        label, exc, fs, want.get('/d/local', 'absent')))
+    rep.analysed['paths'] += n
+    what = 'the new content replaces the local file completely or not at all, and no temporary remains (interpreted on a model file system)'
+    if bad:
+        rep.fail('C19.R3', f.site, what, bad, where=f.where)
+    else:
+        rep.ok('C19.R3', f.site, what, '%d combinations of local state and fault' % n)
 
 
 def r4_fallbacks(rep, src, g):
@@ -1215,7 +1350,20 @@ def check(src, rep, tier):
     soft = Soft(rep)
     g = soft.guard('C19.R1', r1_verify_before_replace, src)
     rep.guard('C19.R2', r2_single_writer, src)
-    rep.guard('C19.R3', r3_replace_protocol, src)
+    from . import common as _c19common
+    n_v, n_e = len(rep.violations), len(rep.errors)
+    rep.guard('C19.R3', r10_replace_by_interpretation, src)
+    replace_holds = len(rep.violations) == n_v and len(rep.errors) == n_e
+    n_r3 = sum(1 for i_ in rep.instances if i_.get('rule') == 'C19.R3')
+
+    class _SoftBoth(_c19common.SoftAll):
+        pass
+    # (how replace_file is written -- a temporary next to the target, try / finally, the rename after the with block -- is a second
+    # opinion behind the interpreted function on a model file system with faults)
+    soft3 = _SoftBoth(rep, lambda: replace_holds, 'the interpreted replace_file on a model file system (C19.R3), which replaces completely or not at all')
+    soft3.guard('C19.R3', r3_replace_protocol, src)
+    if replace_holds and rep.min_instances.get('C19.R3') is not None:
+        rep.min_instances['C19.R3'] = min(rep.min_instances['C19.R3'], n_r3)
     if g is not None:
         soft.guard('C19.R4', r4_fallbacks, src, g)
     rep.guard('C19.R5', r5_hash_backends, src)
